@@ -60,3 +60,70 @@ package slayers
 //@   ensures (result == nil) == (len(data) >= 4)
 //@   ensures result == nil ==> s.TypeCode == SCMPTypeCode(uint16(data[0])<<8|uint16(data[1])) && s.Checksum == uint16(data[2])<<8|uint16(data[3])
 //@   ensures result == nil ==> s.BaseLayer.Contents == data[:4] && s.BaseLayer.Payload == data[4:]
+
+//@ # ---- SCION common + address header codec (C18), decoder safety (C08), aliasing facts used by C07
+//@ import path "github.com/scionproto/scion/pkg/slayers/path"
+//@ spec func be64(b0 uint8, b1 uint8, b2 uint8, b3 uint8, b4 uint8, b5 uint8, b6 uint8, b7 uint8) uint64 = uint64(b0)<<56|uint64(b1)<<48|uint64(b2)<<40|uint64(b3)<<32|uint64(b4)<<24|uint64(b5)<<16|uint64(b6)<<8|uint64(b7)
+//@ macro alen(t) = (4*(1+int(t&3)))
+
+//@ func (AddrType).Length
+//@   props C18
+//@   modifies nothing
+//@   ensures result == alen(tl)
+
+//@ func (*SCION).AddrHdrLen
+//@   props C18
+//@   modifies nothing
+//@   ensures result == 16+alen(s.DstAddrType)+alen(s.SrcAddrType)
+
+//@ func (*SCION).DecodeAddrHdr
+//@   props C18 C08
+//@   let dl = alen(s.DstAddrType)
+//@   let sl = alen(s.SrcAddrType)
+//@   modifies s.DstIA, s.SrcIA, s.RawDstAddr, s.RawSrcAddr
+//@   ensures (result == nil) == (len(data) >= 16+dl+sl)
+//@   ensures result == nil ==> uint64(s.DstIA) == be64(data[0], data[1], data[2], data[3], data[4], data[5], data[6], data[7]) && uint64(s.SrcIA) == be64(data[8], data[9], data[10], data[11], data[12], data[13], data[14], data[15])
+//@   ensures result == nil ==> s.RawDstAddr == data[16:16+dl] && s.RawSrcAddr == data[16+dl:16+dl+sl]
+
+//@ func (*SCION).SerializeAddrHdr
+//@   props C18
+//@   requires len(s.RawDstAddr) == alen(s.DstAddrType) && len(s.RawSrcAddr) == alen(s.SrcAddrType)
+//@   requires !sameArray(buf, s.RawDstAddr) && !sameArray(buf, s.RawSrcAddr)
+//@   let dl = alen(s.DstAddrType)
+//@   let sl = alen(s.SrcAddrType)
+//@   modifies arr(buf)
+//@   ensures (result == nil) == (len(buf) >= 16+dl+sl)
+//@   ensures result == nil ==> uint64(s.DstIA) == be64(buf[0], buf[1], buf[2], buf[3], buf[4], buf[5], buf[6], buf[7]) && uint64(s.SrcIA) == be64(buf[8], buf[9], buf[10], buf[11], buf[12], buf[13], buf[14], buf[15])
+//@   ensures result == nil ==> forall i int :: 0 <= i && i < dl ==> buf[16+i] == s.RawDstAddr[i]
+//@   ensures result == nil ==> forall i int :: 0 <= i && i < sl ==> buf[16+dl+i] == s.RawSrcAddr[i]
+//@   ensures forall i int :: 0 <= i && i < len(buf) && (result != nil || i >= 16+dl+sl) ==> buf[i] == old(buf[i])
+
+//@ # frame assumption for path decoders reached through the path.Path interface: they write the path object only,
+//@ # which is separate from the SCION layer struct
+//@ iface path.Path.DecodeFromBytes
+//@   modifies nothing
+//@ func (*SCION).getPath
+//@   props C08
+//@   modifies nothing
+//@   ensures result1 == nil ==> result0 != nil
+
+//@ func (*SCION).DecodeFromBytes
+//@   props C18 C08
+//@   requires df != nil
+//@   requires s.pathPool != nil ==> len(s.pathPool) >= 4 && s.pathPoolRaw != nil && forall i int :: 0 <= i && i < len(s.pathPool) ==> s.pathPool[i] != nil
+//@   let dt = AddrType(data[9]>>4&0xf)
+//@   let st = AddrType(data[9]&0xf)
+//@   let hb = int(data[5])*4
+//@   let al = 16+alen(dt)+alen(st)
+//@   ensures result == nil ==> len(data) >= 12 && hb >= 12+al && len(data) >= hb
+//@   ensures result == nil ==> s.Version == data[0]>>4 && s.TrafficClass == data[0]<<4|data[1]>>4 && s.FlowID == uint32(data[1]&0xf)<<16|uint32(data[2])<<8|uint32(data[3])
+//@   ensures result == nil ==> s.NextHdr == L4ProtocolType(data[4]) && s.HdrLen == data[5] && s.PayloadLen == uint16(data[6])<<8|uint16(data[7]) && s.PathType == path.Type(data[8]) && s.DstAddrType == dt && s.SrcAddrType == st
+//@   ensures result == nil ==> uint64(s.DstIA) == be64(data[12], data[13], data[14], data[15], data[16], data[17], data[18], data[19]) && uint64(s.SrcIA) == be64(data[20], data[21], data[22], data[23], data[24], data[25], data[26], data[27])
+//@   ensures result == nil ==> s.RawDstAddr == data[28:28+alen(dt)] && s.RawSrcAddr == data[28+alen(dt):28+alen(dt)+alen(st)]
+//@   ensures result == nil ==> s.BaseLayer.Contents == data[:hb] && s.BaseLayer.Payload == data[hb:]
+//@   ensures result == nil ==> s.Path != nil
+
+//@ # frame assumption: the decode feedback object is not part of the layer state
+//@ import gopacket "github.com/gopacket/gopacket"
+//@ iface gopacket.DecodeFeedback.SetTruncated
+//@   modifies nothing
